@@ -69,8 +69,12 @@ def run_one(prob, steps, machine=None):
 def main():
     seed, n = int(sys.argv[1]), int(sys.argv[2])
     res = {}
+    import os
     for i, (prob, pipes) in enumerate(problems(seed, n)):
-        for name, steps in pipes.items():
+        items = list(pipes.items())
+        if os.environ.get("C18_ORDER") == "reverse":      # the order in which pipelines run in one process must not matter
+            items = items[::-1]
+        for name, steps in items:
             try:
                 l, r, _, _ = run_one(prob, steps)
                 res[f"{i}:{name}"] = {"all": digest(l) + digest(r if len(r.data_vars) else None),
